@@ -76,6 +76,9 @@ def _fingerprint():
     return {k: hashlib.sha1(v.encode()).hexdigest()[:12] for k, v in items}
 
 
+_KEPT: list = []
+
+
 def _assemble(job, tmp):
     """one assembly through the file API or the string API; canonical result"""
     sys.path.insert(0, HARNESS)
@@ -90,11 +93,19 @@ def _assemble(job, tmp):
         path = os.path.join(sub, "prog.s")
         with open(path, "w", encoding="utf-8") as fh:
             fh.write(job["src"])
+        out = os.path.join(tmp, "shared_out.ips")   # every file-API assembly of a history writes to the same path
         with impl.quiet():
             try:
-                st = Program().assemble_as_patch(path, os.path.join(sub, "out.ips"))
+                st = Program().assemble_as_patch(path, out)
             except BaseException as e:  # noqa: BLE001
                 st = type(e).__name__
+                _KEPT.append(e)    # a caller may keep the exception (and its traceback) around, e.g. to report it later
+        if job.get("read_output"):
+            _KEPT.clear()
+            import gc
+            gc.collect()
+            data = open(out, "rb").read().hex() if os.path.exists(out) else "-"
+            return f"file-api {st} {data}"
         return f"file-api {st}"
     # the process' working directory (set once, at the start of the child) is part of what a later assembly sees
     r = impl.assemble(job["src"], job["rom"], cwd=None)
@@ -154,8 +165,11 @@ def vocab_program(rng, kind, drv):
     if kind == "ips":
         recs = b"".join((rng.randrange(0x100, 0x4000)).to_bytes(3, "big") + (n_ := rng.randrange(1, 5)).to_bytes(2, "big") + bytes(rng.randrange(256) for _ in range(n_)) for _ in range(rng.randrange(1, 4)))
         return {"src": f"*=0x008000\n.db 7\n.include_ips 'voc.ips', {rng.choice([0, 0x10, -0x10, 0x200])}\n.db 8\n", "rom": "low_rom", "bins": {"voc.ips": b"PATCH" + recs + b"EOF"}}
+    if kind == "file-probe":
+        return {"src": f"*=0x018000\n.db {rng.randrange(256)}, {rng.randrange(256)}, 0xEE\n", "rom": "low_rom", "api": "file", "read_output": True}
     if kind == "file-failing":
-        return {"src": rng.choice(["*=0x008000\nlda.w nothing_defined\n", "*=0x008000\n.db 1\nlda.q 2\n", "*=0x008000\n}\n", ".include 'gone.s'\n", "*=0x008000\n.db 1\n"]),
+        return {"src": rng.choice(["*=0x008000\nlda.w nothing_defined\n", "*=0x008000\n.db 1\nlda.q 2\n", "*=0x008000\n}\n", ".include 'gone.s'\n", "*=0x008000\n.db 1\n",
+                                   "*=0x008000\n.db 1,2,3,4,5,6,7,8\n*=0x028000\nbra far_zq + 300\nfar_zq:\n", "*=0x008000\n.db 9,9,9,9,9,9,9,9,9,9\n*=0x028000\n.db 256 * 256 * 256 * 256\nlda.l -1\n"]),
                 "rom": "low_rom", "api": "file", "files": {"voc_inc.s": ".db 0x99\n"}}
     if kind == "failing":
         return {"src": rng.choice(["*=0x008000\nlda.w nothing_defined\n", "*=0x008000\n.db 1\nlda.q 2\n", "*=0x008000\n.macro half(v) {\n.db v\n", "*=0x008000\n.db 1\n*=0x700000\n.db 2\n", "*=0x008000\nload(5)\n", ".include 'gone.s'\n", "*=0x008000\nSHARED := 3\n.db SHARED\nbra shared_label + 300\n"]), "rom": "low_rom"}
@@ -173,7 +187,7 @@ def run(ctx):
     try:
         s = core.Stream("S19-history", "histories of 1-5 assemblies (valid generated programs, programs defining macros / symbols / tables / custom .map layouts with different geometries, programs failing in each phase, different ROM types) followed by a probe (valid, failing, using names only a history program defines, loading its own table / map), all in one fresh interpreter, vs the probe alone in another fresh interpreter; the probe is also repeated; monitor: every module/class-level mutable object and function default of the a816 and script packages is fingerprinted before and after each assembly; non-trivial = distinct (history kinds, probe kind)")
         kinds = ["macros", "symbols", "table", "map", "failing", "generated", "generated", "include", "incbin", "ips", "file-failing"]
-        probes = ["uses-undefined", "table", "map", "generated", "symbols", "failing", "macros", "include", "incbin", "ips"]
+        probes = ["uses-undefined", "table", "map", "generated", "symbols", "failing", "macros", "include", "incbin", "ips", "file-probe"]
         jobs = []
         n = 60 if tier == "quick" else 500
         for i in range(n):
@@ -181,7 +195,7 @@ def run(ctx):
             pk = probes[i % len(probes)]
             # make histories relevant to the probe kind half of the time
             if rng.random() < 0.6:
-                hk[rng.randrange(len(hk))] = {"uses-undefined": rng.choice(["macros", "symbols", "table"]), "table": "table", "map": "map", "include": "include", "incbin": "incbin", "ips": "ips"}.get(pk, pk if pk in kinds else "generated")
+                hk[rng.randrange(len(hk))] = {"uses-undefined": rng.choice(["macros", "symbols", "table"]), "table": "table", "map": "map", "include": "include", "incbin": "incbin", "ips": "ips", "file-probe": "file-failing"}.get(pk, pk if pk in kinds else "generated")
             if pk == "uses-undefined":
                 hk = hk[:2] + ["macros", "symbols", "table"]   # the names the probe uses are all defined by the history
             history = [vocab_program(rng, k, drv) for k in hk]
